@@ -303,6 +303,23 @@ def varied_merge_samples(v0, v1, v2, rows_first=False):
     return [{"rows": rows, "head": head}] if rows_first else [{"head": head, "rows": rows}]
 
 
+def varied_merge_chain(vs, rows_at):
+    """one root object whose fields m0..m{n-1} are objects of one shape (they all merge into one class); member i holds the field
+    f with value vs[i], except member rows_at, which is a list of two such objects: one with vs[rows_at], one without f.  The
+    merged field therefore sees plain X, other kinds and Optional[X] in every relative order (merge_models folds several members,
+    and the order of the union members follows the order of the members)"""
+    def obj(v):
+        o = {"p": 1, "q": "x", "r": 2.5, "s": True}
+        if v is not ABSENT:
+            o["f"] = value(v)
+        return o
+    root = {}
+    for i, v in enumerate(vs):
+        root[f"m{i}"] = [obj(v), obj(ABSENT)] if i == rows_at else obj(v)
+    return [root]
+
+
+VARIED_CHAIN_ATOMS = ["int", "lit_a", "float", "L(int)", "O(k:int)"]
 VARIED_ATOMS = ["int", "float", "true", "lit_a", "s_int", "null", "L(int)", "elist", "O(k:int)"]
 
 
